@@ -1,4 +1,4 @@
-/* known_id: C16-xchg-float */
+/* fixed: ND_EXCH on a floating object exchanged %eax/%rax while the value was in %xmm0 */
 /* expect:
 1.500000 2.250000
 1.500000 2.250000
